@@ -247,6 +247,10 @@ V("C18", "shapesys-vectorised-own-copy", "silent", "", "shapesys relative uncert
   ("src/pyhf/writexml.py", '        _export_root_histogram(\n            attrs[\'HistoName\'],\n            [\n                np.divide(\n                    a, b, out=np.zeros_like(a), where=np.asarray(b) != 0, dtype=\'float\'\n                )\n                for a, b in np.array(\n                    (modifierspec[\'data\'], sampledata), dtype="float"\n                ).T\n            ],\n        )\n    elif modifierspec[\'type\'] == \'shapefactor\':', "        nominal = np.array(sampledata, dtype='float')\n        empty = nominal == 0\n        nominal[empty] = 1.0\n        relative = np.asarray(modifierspec['data'], dtype='float') / nominal\n        relative[empty] = 0.0\n        _export_root_histogram(attrs['HistoName'], relative.tolist())\n    elif modifierspec['type'] == 'shapefactor':"), ("src/pyhf/writexml.py", "    sample = ET.Element('Sample', **attrs)\n    for modspec in samplespec['modifiers']:", "    sample = ET.Element('Sample', **attrs)\n    sampledata = np.asarray(samplespec['data'], dtype='float')\n    for modspec in samplespec['modifiers']:"), ("src/pyhf/writexml.py", "            spec, modspec, channelname, samplespec['name'], samplespec['data']\n        )\n        if modifier is not None:\n            sample.append(modifier)\n    _export_root_histogram(histname, samplespec['data'])", "            spec, modspec, channelname, samplespec['name'], sampledata\n        )\n        if modifier is not None:\n            sample.append(modifier)\n    _export_root_histogram(histname, sampledata)"))
 V("C18", "shapesys-vectorised-aliased", "fire", "C18.R5", "shapesys conversion edits the array that build_sample writes afterwards: empty bins come back as 1.0",
   ("src/pyhf/writexml.py", '        _export_root_histogram(\n            attrs[\'HistoName\'],\n            [\n                np.divide(\n                    a, b, out=np.zeros_like(a), where=np.asarray(b) != 0, dtype=\'float\'\n                )\n                for a, b in np.array(\n                    (modifierspec[\'data\'], sampledata), dtype="float"\n                ).T\n            ],\n        )\n    elif modifierspec[\'type\'] == \'shapefactor\':', "        nominal = np.asarray(sampledata, dtype='float')\n        empty = nominal == 0\n        nominal[empty] = 1.0\n        relative = np.asarray(modifierspec['data'], dtype='float') / nominal\n        relative[empty] = 0.0\n        _export_root_histogram(attrs['HistoName'], relative.tolist())\n    elif modifierspec['type'] == 'shapefactor':"), ("src/pyhf/writexml.py", "    sample = ET.Element('Sample', **attrs)\n    for modspec in samplespec['modifiers']:", "    sample = ET.Element('Sample', **attrs)\n    sampledata = np.asarray(samplespec['data'], dtype='float')\n    for modspec in samplespec['modifiers']:"), ("src/pyhf/writexml.py", "            spec, modspec, channelname, samplespec['name'], samplespec['data']\n        )\n        if modifier is not None:\n            sample.append(modifier)\n    _export_root_histogram(histname, samplespec['data'])", "            spec, modspec, channelname, samplespec['name'], sampledata\n        )\n        if modifier is not None:\n            sample.append(modifier)\n    _export_root_histogram(histname, sampledata)"))
+V("C13", "torch-memo-aliases-buffer", "fire", "C13.R5", "torch shim remembers the last point by reference (detach shares storage with the caller's buffer)",
+  ("src/pyhf/optimize/opt_pytorch.py", '    if do_grad:\n\n        def func(pars):\n            pars = tensorlib.astensor(pars)\n            pars.requires_grad = True\n', "    if do_grad:\n        last = {'pars': None, 'result': None}\n\n        def func(pars):\n            pars = tensorlib.astensor(pars)\n            if last['pars'] is not None and torch.equal(pars, last['pars']):\n                return last['result']\n            pars.requires_grad = True\n"), ("src/pyhf/optimize/opt_pytorch.py", '            return constr_nll.detach().numpy()[0], grad\n', "            last['pars'] = pars.detach()\n            last['result'] = (constr_nll.detach().numpy()[0], grad)\n            return last['result']\n"))
+V("C13", "torch-memo-private-copy", "silent", "", "torch shim remembers the last point as a private copy",
+  ("src/pyhf/optimize/opt_pytorch.py", '    if do_grad:\n\n        def func(pars):\n            pars = tensorlib.astensor(pars)\n            pars.requires_grad = True\n', "    if do_grad:\n        last = {'pars': None, 'result': None}\n\n        def func(pars):\n            pars = tensorlib.astensor(pars)\n            if last['pars'] is not None and torch.equal(pars, last['pars']):\n                return last['result']\n            pars.requires_grad = True\n"), ("src/pyhf/optimize/opt_pytorch.py", '            return constr_nll.detach().numpy()[0], grad\n', "            last['pars'] = pars.detach().clone()\n            last['result'] = (constr_nll.detach().numpy()[0], grad)\n            return last['result']\n"))
 
 # ------------------------------------------------------------------ C08
 INF = "src/pyhf/infer/__init__.py"
